@@ -125,6 +125,8 @@ def direct_oracle(o, cls, before_line, after_line):
                 return f"the graph names read from the statement ({k}) are not the ones its text lists"
         if kv(o, "xcc") is not None and kv(o, "cc") is not None and kv(o, "xcc") != kv(o, "cc"):
             return "the CONSTRUCT / DECONSTRUCT template read from the statement is not the template its text writes"
+        if kv(o, "xc") is not None and kv(o, "c") is not None and kv(o, "xc") != kv(o, "c"):
+            return "the WHERE clauses read from the statement are not the clauses its text writes"
         if kv(o, "xdata") is not None:
             want = []
             for t in kv(o, "xdata").split(";"):
